@@ -107,8 +107,13 @@ func safeQuote(in []byte) (q []byte, err error, panicked interface{}) {
 		}
 	}()
 	q, err = txtar.Quote(in)
+	// what was returned stays what it is: a later call on the same goroutine must not reach into an earlier result
+	txtar.Quote(decoyBody)
 	return q, err, nil
 }
+
+var decoyBody = []byte("decoy\n-- decoy --\ndecoy decoy decoy decoy\n-- d --\n")
+var decoyArchive = &txtar.Archive{Comment: []byte("decoy comment\n"), Files: []txtar.File{{Name: "decoy/a", Data: []byte("decoy a\n")}, {Name: "decoy/b", Data: []byte("decoy b\ndecoy b\n")}}}
 
 func safeUnquote(in []byte) (q []byte, err error, panicked interface{}) {
 	defer func() {
@@ -117,6 +122,7 @@ func safeUnquote(in []byte) (q []byte, err error, panicked interface{}) {
 		}
 	}()
 	q, err = txtar.Unquote(in)
+	txtar.Unquote([]byte(">decoy\n>-- decoy --\n>decoy decoy decoy\n"))
 	return q, err, nil
 }
 
@@ -134,7 +140,9 @@ func safeFormat(a arch) (out []byte, panicked interface{}) {
 			panicked = fmt.Sprint(r)
 		}
 	}()
-	return txtar.Format(toReal(a)), nil
+	out = txtar.Format(toReal(a))
+	txtar.Format(decoyArchive)
+	return out, nil
 }
 
 // crClass: "none" no CR; "crlf" every CR is immediately followed by LF; "other".
